@@ -251,6 +251,12 @@ theorem registry_sections_tie :
     startArm = ["lookup c.active[m.id] locked=true", "if duplicate: close 4409 return=true", "subscribe"] := by
   decide
 
+/-- `Ws.doClose` is one step: `close()` tests `c.closed`, writes the close frame, calls every registered
+cancel function and sets `c.closed` inside a single critical section (regenerated from websocket.go) -/
+theorem close_section_tie :
+    closeSections = [["if c.closed", "c.conn.WriteMessage", "range c.active call value", "c.closed=true"]] := by
+  decide
+
 /-! ## non-vacuity: concrete reachable histories on which the theorems above speak -/
 
 def cfgT (stubborn : Bool) : Cfg :=
